@@ -29,7 +29,7 @@ func checkC20(c *Ctx) {
 		}
 	}
 	c.R.Count("client connect functions", len(connects))
-	c.R.Floor("client connect functions (Connect, ConnectTLS)", len(connects), 2)
+	c.R.Floor("client connect functions (Connect and ConnectTLS, or the handshake they share)", len(connects), 1)
 	for _, fn := range connects {
 		c.clientConnect(fn)
 	}
